@@ -147,30 +147,40 @@ def check(ctx):
         kind, _ = classify(P, f, c)
         ctx.ob("b.sync-pause", "pause-before-tx|%s|%s" % (f.name.split("::")[-1], kind), ok,
                "a transmission can start without waiting for the synchronisation pause (33 bit times after the last bus activity): " + w, f.loc(b))
-    poll = ctx.need_fn(CR, ST + "::poll_inner")
+    # The poll prologue (PHY still transmitting?  more RX bytes pending?) may live in private helpers or in poll_inner itself:
+    # single-call-site helpers are folded into poll_inner and the rule is stated on the PHY queries, not on helper names.
+    poll = ctx.need_fn(CR, ST + "::poll_inner", expand=True)
     if poll is not None:
         tb = TermBuilder(poll, P)
-        marks = {(b, None): "activity" for b, c in call_sites(poll, lambda c: callee_is(c, "check_for_bus_activity"))}
+        marks = {}
+        for b, c in call_sites(poll):
+            if callee_is(c, "phy::ProfibusPhy::poll_pending_received_bytes"):
+                marks[(b, None)] = "rxq"
+            elif callee_is(c, ST + "::mark_bus_activity"):
+                marks[(b, None)] = "mba"
+        ctx.anchor("pending-RX query in the poll prologue", sum(1 for v in marks.values() if v == "rxq"), 1)
         g = GuardAnalysis(poll, P, marks=marks)
         handlers = [(b, c) for b, c in call_sites(poll) if (c.get("callee") or "") in T]
         ctx.anchor("state handlers dispatched from poll_inner", len(handlers), 8)
+        is_ptx = lambda k: strip_refs(k)[0] == "call" and M.callee_matches(strip_refs(k)[1], "phy::ProfibusPhy::poll_transmission")
+        is_est = lambda k: k[0] == "call" and M.mentions(k, M.t_path("self.last_bus_activity")) and not M.mentions(k, lambda t: t[0] == "call" and "poll_transmission" in t[1])
+        more_rx = M.key_cmp("lt", M.t_path("self.pending_bytes"), lambda t: strip_refs(t)[0] == "call" and "poll_pending_received_bytes" in strip_refs(t)[1])
         for b, c in handlers:
             S = g.at(b)
-            ok, w = M.all_disj(S, lambda k: k[0] == "discr" and strip_refs(k[1])[0] == "call" and M.callee_matches(strip_refs(k[1])[1], "check_for_ongoing_transmision"), {"None"})
-            ok2 = all(g.count_of(fs, "activity") == {1} for fs in S) and bool(S)
+            ok_a, w = M.all_disj(S, is_ptx, {False})
+            ok_b, w2 = M.all_disj(S, is_est, {False})
+            ok2 = all(g.count_of(fs, "rxq") == {1} for fs in S) and bool(S)
             hn = (c.get("callee") or "").split("::")[-1]
-            ctx.ob("b.sync-pause", "dispatch-after-tx-check|" + hn, ok, "handler %s is dispatched without `check_for_ongoing_transmision(..) is None`: %s" % (hn, w), poll.loc(b))
+            ctx.ob("b.sync-pause", "dispatch-after-tx-check|" + hn, ok_a and ok_b,
+                   "handler %s is dispatched although this station may still be transmitting (PHY poll_transmission / own timing estimate not both false): %s" % (hn, w if not ok_a else w2), poll.loc(b))
             ctx.ob("b.sync-pause", "dispatch-after-activity-update|" + hn, ok2,
                    "handler %s is dispatched without first updating the bus-activity marker from the pending RX bytes (a partially received telegram would not count as bus activity)" % hn, poll.loc(b))
-    caf = ctx.need_fn(CR, ST + "::check_for_bus_activity")
-    if caf is not None:
-        g = GuardAnalysis(caf, P)
-        n = 0
-        for b, c in call_sites(caf, lambda c: callee_is(c, "mark_bus_activity")):
-            n += 1
-            ok, w = M.all_disj(g.at(b), M.key_cmp("lt", M.t_path("self.pending_bytes"), lambda t: strip_refs(t)[0] == "call" and "poll_pending_received_bytes" in strip_refs(t)[1]), {True})
-            ctx.ob("b.sync-pause", "activity-from-pending-bytes", ok, "bus activity must be marked whenever more bytes are pending than before: " + w, caf.loc(b))
-        ctx.anchor("mark_bus_activity in check_for_bus_activity", n, 1)
+            bad = []
+            for fs in S:
+                v = [vs for k, vs in fs.items() if more_rx(k)]
+                if not (v and v[0] == ("in", frozenset([False]))) and 0 in g.count_of(fs, "mba"):
+                    bad.append(M.fmt_facts(fs)[:200])
+            ctx.ob("b.sync-pause", "activity-from-pending-bytes|" + hn, not bad, "bus activity must be marked whenever more bytes are pending than before: " + "; ".join(bad[:1]), poll.loc(b))
     # no second transmission after a transmission in one poll
     for f in [P.get(CR, n) for n in sorted(T)]:
         if f is None:
@@ -299,23 +309,25 @@ def check_rate_table(ctx, P):
 def check_ongoing_tx(ctx, P):
     """b (ongoing transmission): while the PHY (or the own timing estimate) says that this station is still transmitting, the bus
     activity marker is refreshed; idle and supervision times are measured from the real end of the own transmission."""
-    f = ctx.need_fn(CR, ST + "::check_for_ongoing_transmision")
+    f = ctx.need_fn(CR, ST + "::poll_inner", expand=True)
     if f is None:
         return
     marks = {(b, None): "act" for b, c in call_sites(f, lambda c: callee_is(c, ST + "::mark_bus_activity"))}
     g = GuardAnalysis(f, P, marks=marks)
+    is_ptx = lambda k: strip_refs(k)[0] == "call" and M.callee_matches(strip_refs(k)[1], "phy::ProfibusPhy::poll_transmission")
+    is_est = lambda k: k[0] == "call" and M.mentions(k, M.t_path("self.last_bus_activity")) and not M.mentions(k, lambda t: t[0] == "call" and "poll_transmission" in t[1])
     bad = []
     nsome = 0
-    for b, i, s in stmts(f):
-        if "a" in s and mk_place(s["a"]) == (0, ()) and s["rv"].get("variant") == "Some":
-            nsome += 1
-            for fs in g.at(b, i):
+    for rb in f.return_blocks:
+        for fs in g.at(rb):
+            busy = any((is_ptx(k) or is_est(k)) and vs == ("in", frozenset([True])) for k, vs in fs.items())
+            if busy:
+                nsome += 1
                 if 0 in g.count_of(fs, "act"):
                     bad.append(M.fmt_facts(fs)[:160])
     ctx.ob("b.sync-pause", "ongoing-transmission-refreshes-activity", nsome >= 1 and not bad,
-           "check_for_ongoing_transmision reports an ongoing transmission without refreshing the bus-activity marker: the 33-bit pause and the "
+           "the poll reports an ongoing transmission without refreshing the bus-activity marker: the 33-bit pause and the "
            "slot supervision would be measured from the computed instead of the real end of the transmission: %s" % "; ".join(bad[:1]), f.loc(0))
-
 
 _g = {}
 
